@@ -665,3 +665,52 @@ def _state_value(X, values, name):
     for a, e in m:
         r = r * as_poly(values[a[2]]) ** e
     return r
+
+
+# ----------------------------------------------------------------------------- re-normalisation hooks
+
+
+def _rebuild_sum(a):
+    return sym_sum(a[1], a[2])
+
+
+def _rebuild_F(a):
+    return forward_entry(a[1], a[2], a[0], tuple(a[3:]))
+
+
+def _rebuild_I(a):
+    # ('I', multiplier monomial, spectrum, n): linear in the spectrum part
+    out = Poly()
+    for c, const, var in split_terms(a[2], lambda b: varies(b) and not is_multiplier_atom(b)):
+        if not var and not const and False:
+            continue
+        out = out + Poly({const: c}) * Poly.atom(("I", a[1], Poly({var: ONE})) + tuple(a[3:]))
+    if a[1].is_zero():
+        return Poly()
+    return out
+
+
+def _rebuild_Idc(a):
+    out = Poly()
+    for c, const, var in split_terms(a[1], lambda b: varies(b) and not is_multiplier_atom(b)):
+        out = out + Poly({const: c}) * Poly.atom(("Idc", Poly({var: ONE})) + tuple(a[2:]))
+    return out
+
+
+def _rebuild_rsum(a):
+    return bound_sum(a[1], ("idx", "j"), a[2])
+
+
+alg.REBUILD.update({"Sum": _rebuild_sum, "F": _rebuild_F, "Fx": _rebuild_F, "I": _rebuild_I, "Idc": _rebuild_Idc, "RSum": _rebuild_rsum})
+
+
+def assume_mean_mode_retained(p):
+    """standing assumption of the mean-mode arguments: the dealiasing band contains k = 0, i.e.
+    indicators 1{0 <= cutoff} are 1 (true whenever fraction*(N//2) >= 1)"""
+
+    def f(a):
+        if a[0] == "ind" and a[1] == "le" and a[2].is_zero():
+            return Poly.const(1)
+        return None
+
+    return alg.map_atoms(p, f)
